@@ -355,7 +355,7 @@ func validTargets(spec *world.Spec) []world.Ref {
 func init() {
 	// ------------------------------------------------------------ C05
 	Register(&metaCheck{id: "C05", level: "fault_enumeration",
-		rule: "for selected valid signed entries (RCD-1 and RCD-e, transfers, held conversions, multi-transaction batches, every fate) the adversary writes tampered copies into the same, the next and later blocks: every single-bit flip of the content and of each external id (thorough: exhaustive for the selected entries, quick: a seeded sample), swapped / dropped / duplicated / extra signatures, missing salt, signature made for another chain, content naming the victim but signed by another key; plus owner-signed entries with a salt outside the +-12 h window and RCD-e signed spends of a funded address at the last heights before that key type is accepted; the world is synced with and without the copies and must be identical; distinct = distinct (mutation kind, external id, bit) per target",
+		rule: "for selected valid signed entries (RCD-1 and RCD-e, transfers, held conversions, multi-transaction batches, every fate) the adversary writes tampered copies into the same, the next and later blocks: every single-bit flip of the content and of each external id (thorough: exhaustive for the selected entries, quick: a seeded sample), swapped / dropped / duplicated / extra signatures, missing salt, signature made for another chain, content naming the victim but signed by another key, a sample of these rejected copies written a second time byte for byte; plus owner-signed entries with a salt outside the +-12 h window and RCD-e signed spends of a funded address at the last heights before that key type is accepted; the world is synced with and without the copies and must be identical; distinct = distinct (mutation kind, external id, bit) per target",
 		gen: func(seed uint64, tier string) (*Scenario, error) {
 			rng := rand.New(rand.NewSource(int64(seed)))
 			p := baseProfile(rng)
@@ -443,6 +443,18 @@ func init() {
 					}
 					spec.Blocks[tb].Tx = append(spec.Blocks[tb].Tx, cp)
 					plan.Added = append(plan.Added, world.Ref{B: tb, I: len(spec.Blocks[tb].Tx) - 1})
+					// some rejected copies are written a second time, byte for byte: a
+					// check that only runs the first time an entry is seen must not let
+					// the second copy through
+					if i%7 == 3 {
+						first := world.Ref{B: tb, I: len(spec.Blocks[tb].Tx) - 1}
+						tb2 := tb + []int{0, 1, 3}[(i/7)%3]
+						if tb2 >= len(spec.Blocks) {
+							tb2 = tb
+						}
+						spec.Blocks[tb2].Tx = append(spec.Blocks[tb2].Tx, world.TxSpec{DupOf: &first, Minute: 10})
+						plan.Added = append(plan.Added, world.Ref{B: tb2, I: len(spec.Blocks[tb2].Tx) - 1})
+					}
 				}
 			}
 			// owner-signed entries that must still have no effect: a salt outside
@@ -486,6 +498,12 @@ func init() {
 			}
 			for _, r := range accepted {
 				t := w.Spec.Blocks[r.B].Tx[r.I]
+				if t.DupOf != nil {
+					// the second, byte-identical copy of an added entry: same entry
+					// hash, judged like the copy it repeats
+					r = *t.DupOf
+					t = w.Spec.Blocks[r.B].Tx[r.I]
+				}
 				if t.Mut == nil || !t.RCDE {
 					return ""
 				}
